@@ -437,3 +437,59 @@ def IMP(a, want):
     inl = Inliner(fx, a)
     fi, wi = _expand_locals(fx, inl.inline(f)), _expand_locals(fx, inl.inline(want))
     return (fi != f or wi != want) and B.entails(fi, wi)
+
+
+def elem_call(fx, text):
+    """`xs[idx]` where `xs = [Cls(args..) for v in X]` (or `for j, v in enumerate(X)`) was kept by name: the constructor call of
+    element idx, with the comprehension variable replaced by `X[idx]`.  None if `text` is not of that form."""
+    import copy
+    try:
+        e = ast.parse(text, mode="eval").body
+    except SyntaxError:
+        return None
+    if not (isinstance(e, ast.Subscript) and isinstance(e.value, ast.Name)):
+        return None
+    lc = fx.localdefs.get(e.value.id)
+    if not (isinstance(lc, ast.ListComp) and isinstance(lc.elt, ast.Call) and len(lc.generators) == 1 and not lc.generators[0].ifs):
+        return None
+    g = lc.generators[0]
+    idx = e.slice
+    bind = {}
+    if isinstance(g.target, ast.Name):
+        bind[g.target.id] = ast.Subscript(value=copy.deepcopy(g.iter), slice=copy.deepcopy(idx), ctx=ast.Load())
+    elif isinstance(g.target, ast.Tuple) and len(g.target.elts) == 2 and all(isinstance(t, ast.Name) for t in g.target.elts) and \
+            isinstance(g.iter, ast.Call) and isinstance(g.iter.func, ast.Name) and g.iter.func.id == "enumerate" and g.iter.args:
+        bind[g.target.elts[0].id] = copy.deepcopy(idx)
+        bind[g.target.elts[1].id] = ast.Subscript(value=copy.deepcopy(g.iter.args[0]), slice=copy.deepcopy(idx), ctx=ast.Load())
+    else:
+        return None
+
+    class S(ast.NodeTransformer):
+        def visit_Name(self, n):
+            return copy.deepcopy(bind[n.id]) if n.id in bind else n
+    return S().visit(copy.deepcopy(lc.elt))
+
+
+def star_elements(v):
+    """`Cat(*xs)` / `Reduce(op, xs)` argument lists built by a comprehension or by a loop appending to a list: [(element ast,
+    text that names the iterated element, iterable text)].  None when `v` has neither form."""
+    import copy
+    import re as _re
+    if isinstance(v, ast.Starred):
+        v = v.value
+    if isinstance(v, (ast.ListComp, ast.GeneratorExp)) and len(v.generators) == 1 and not v.generators[0].ifs:
+        g = v.generators[0]
+        return [(v.elt, norm(g.target), norm(g.iter))]
+    if isinstance(v, (ast.List, ast.Tuple)):
+        out = []
+        for x in v.elts:
+            if isinstance(x, ast.Call) and isinstance(x.func, ast.Name) and x.func.id == "_each" and len(x.args) == 2 and \
+                    isinstance(x.args[1], ast.Constant):
+                m = _re.match(r"^\(?(\w+)\)? in (.+)$", str(x.args[1].value))
+                if not m:
+                    return None
+                out.append((x.args[0], f"{m.group(2)}[_{m.group(1)}]", m.group(2)))
+            else:
+                return None
+        return out or None
+    return None
